@@ -32,6 +32,10 @@ struct Binding {
     assigned_later: bool,
     /// value the defining form gave (compile-time constant)
     const_at_def: bool,
+    /// how the value is reached: 0 plain name / direct call, 1 through a closure
+    /// made by make-caller, 2 function inside a box, 3 function inside a vector,
+    /// 4 a setter function (not probed; called by explicit steps)
+    access: u8,
 }
 
 #[derive(Default, Clone)]
@@ -80,7 +84,10 @@ impl Model {
                 let fe = self.bindings[f].def_eval;
                 reads.iter().any(|r| {
                     let b = &self.bindings[*r];
-                    b.def_eval == fe && b.const_at_def && b.assigned_later
+                    // defined with a constant in the evaluation that compiled
+                    // the reader, and either assigned later or never actually
+                    // defined (the defining form did not run)
+                    b.def_eval == fe && ((b.const_at_def && b.assigned_later) || matches!(b.val, B::Unbound))
                 }) || calls.iter().any(|c| {
                     // a callee defined in the same evaluation may be inlined
                     // into the caller and folded as well
@@ -103,6 +110,28 @@ pub fn render(form: &Value) -> String {
     let a = form.as_array().unwrap();
     match a[0].as_str().unwrap() {
         "def" => format!("(define {} {})", a[1].as_str().unwrap(), a[2]),
+        "deffn" if a.get(5).and_then(|x| x.as_str()).unwrap_or("call") != "call" => {
+            let name = a[1].as_str().unwrap();
+            let mut body = format!("(+ {}", a[2]);
+            for c in a[3].as_array().unwrap() {
+                body.push_str(&format!(" ({})", c.as_str().unwrap()));
+            }
+            for r in a[4].as_array().unwrap() {
+                body.push_str(&format!(" {}", r.as_str().unwrap()));
+            }
+            body.push(')');
+            match a[5].as_str().unwrap() {
+                "caller" => format!("(define {} (make-caller (lambda () {})))", name, body),
+                "boxed" => format!("(define {} (box (lambda () {})))", name, body),
+                "vec" => format!("(define {} (vector (lambda () {})))", name, body),
+                _ => {
+                    // setter: assigns the variable named in a[4][0]
+                    let var = a[4][0].as_str().unwrap();
+                    format!("(define ({}) (set! {} {}) {})", name, var, a[2], a[2])
+                }
+            }
+        }
+        "callset" => format!("({})", a[1].as_str().unwrap()),
         "deffn" => {
             let mut s = format!("(define ({}) (+ {}", a[1].as_str().unwrap(), a[2]);
             for c in a[3].as_array().unwrap() {
@@ -122,7 +151,8 @@ pub fn render(form: &Value) -> String {
             2 => "(apply (lambda (a b) a) (list 1))".to_string(),
             _ => "(vector-ref (vector 1 2) 10)".to_string(),
         },
-        "fail-ct" => match a[1].as_u64().unwrap_or(0) % 3 {
+        "fail-ct" => match a[1].as_u64().unwrap_or(0) % 4 {
+            3 => format!("(define self-ref-{n} (self-ref-{n} 1))", n = a[1]),
             0 => format!("(undefined-name-{})", a[1]),
             1 => format!("(+ 1 (also-undefined-{} 2))", a[1]),
             _ => "(define (broken) (let ((x 1)) (nope-not-defined x)))".to_string(),
@@ -180,6 +210,30 @@ pub fn gen_history(rng: &mut Rng, thorough: bool) -> Value {
                     reads.push(*rng.pick(vars));
                 }
             }
+            // other ways of holding a function: a closure made by one shared
+            // lambda, a box, a vector, or a function that assigns a global
+            match rng.below(9) {
+                0 | 1 if !fns.is_empty() => {
+                    let name = *rng.pick(&["ca", "cb", "cc"]);
+                    let target = *rng.pick(fns);
+                    return json!(["deffn", name, 0, [target], [], "caller"]);
+                }
+                2 => {
+                    let name = *rng.pick(&["ba", "bb"]);
+                    let calls: Vec<&str> = calls.iter().copied().collect();
+                    return json!(["deffn", name, next, calls, reads, "boxed"]);
+                }
+                3 => {
+                    let name = *rng.pick(&["ta", "tb"]);
+                    return json!(["deffn", name, next, calls, reads, "vec"]);
+                }
+                4 if !vars.is_empty() => {
+                    let name = *rng.pick(&["sa", "sb"]);
+                    let var = *rng.pick(vars);
+                    return json!(["deffn", name, next, [], [var], "setter"]);
+                }
+                _ => {}
+            }
             if !fns.contains(&f) {
                 fns.push(f);
             }
@@ -196,7 +250,13 @@ pub fn gen_history(rng: &mut Rng, thorough: bool) -> Value {
                     forms.push(gen_def(rng, &mut vars, next));
                 }
             }
-            8 => forms.push(json!(["expr", next])),
+            8 => {
+                if rng.chance(1, 2) {
+                    forms.push(json!(["callset", *rng.pick(&["sa", "sb"])]));
+                } else {
+                    forms.push(json!(["expr", next]));
+                }
+            }
             9 => forms.push(json!(["gc"])),
             10..=11 => {
                 // multi-form successful evaluation
@@ -241,14 +301,16 @@ pub fn gen_history(rng: &mut Rng, thorough: bool) -> Value {
                 let pre = rng.below(3);
                 for _ in 0..pre {
                     next += 1;
-                    let f = if rng.chance(1, 2) {
+                    let f = if rng.chance(1, 3) {
                         gen_def(rng, &mut vars, next)
+                    } else if rng.chance(1, 2) {
+                        gen_fn(rng, &vars, &mut fns, next, "")
                     } else if !vars.is_empty() {
                         json!(["set", *rng.pick(&vars), next])
                     } else {
                         json!(["expr", next])
                     };
-                    if (f[0] == "def") && forms.iter().any(|g: &Value| g[1] == f[1] && g[0] == "def") {
+                    if (f[0] == "def" || f[0] == "deffn") && forms.iter().any(|g: &Value| g[1] == f[1] && (g[0] == "def" || g[0] == "deffn")) {
                         continue;
                     }
                     forms.push(f);
@@ -337,6 +399,29 @@ impl<'a> Run<'a> {
                         };
                         self.model.bindings[b].val = val;
                         self.model.bindings[b].const_at_def = a[0] == "def";
+                        self.model.bindings[b].access = match a.get(5).and_then(|x| x.as_str()).unwrap_or("call") {
+                            "caller" => 1,
+                            "boxed" => 2,
+                            "vec" => 3,
+                            "setter" => 4,
+                            _ => 0,
+                        };
+                    }
+                }
+            }
+            "callset" => {
+                if executed {
+                    if let Some(sb) = names_at(names, a[1].as_str().unwrap()) {
+                        if self.model.bindings[sb].access == 4 {
+                            if let B::Fn { k, reads, .. } = self.model.bindings[sb].val.clone() {
+                                if let Some(target) = reads.first() {
+                                    self.model.bindings[*target].val = B::Int(k);
+                                    if self.model.bindings[*target].def_eval != eval {
+                                        self.model.bindings[*target].assigned_later = true;
+                                    }
+                                }
+                            }
+                        }
                     }
                 }
             }
@@ -358,7 +443,10 @@ impl<'a> Run<'a> {
 
     fn probe_one(&mut self, name: &str, b: usize, step: usize, context: &str) {
         let is_fn = matches!(self.model.bindings[b].val, B::Fn { .. });
-        let src = if is_fn { format!("({})", name) } else { name.to_string() };
+        if self.model.bindings[b].access == 4 {
+            return;
+        }
+        let src = access_expr(name, is_fn, self.model.bindings[b].access);
         let expect = self.model.value(b);
         let got = vmh::eval(self.engine, &src).map(|v| v.last().cloned().unwrap_or_default());
         let ok = match (&expect, &got) {
@@ -399,13 +487,15 @@ impl<'a> Run<'a> {
     fn probe_all(&mut self, step: usize, context: &str) {
         let names: Vec<(String, usize)> = self.model.current.iter().map(|(k, v)| (k.clone(), *v)).collect();
         // fast path: everything in one evaluation when nothing is unbound or tainted
+        let names: Vec<(String, usize)> = names.into_iter().filter(|(_, b)| self.model.bindings[*b].access != 4).collect();
         let simple = names.iter().all(|(_, b)| self.model.value(*b).is_ok() && !self.model.depends_on_tainted(*b));
         if simple && !names.is_empty() {
             let mut src = String::from("(list");
             let mut exp = String::from("(");
             for (i, (n, b)) in names.iter().enumerate() {
                 let is_fn = matches!(self.model.bindings[*b].val, B::Fn { .. });
-                src.push_str(&if is_fn { format!(" ({})", n) } else { format!(" {}", n) });
+                src.push(' ');
+                src.push_str(&access_expr(n, is_fn, self.model.bindings[*b].access));
                 if i > 0 {
                     exp.push(' ');
                 }
@@ -422,6 +512,17 @@ impl<'a> Run<'a> {
         for (n, b) in names {
             self.probe_one(&n, b, step, context);
         }
+    }
+}
+
+fn access_expr(name: &str, is_fn: bool, access: u8) -> String {
+    if !is_fn {
+        return name.to_string();
+    }
+    match access {
+        2 => format!("((unbox {}))", name),
+        3 => format!("((vector-ref {} 0))", name),
+        _ => format!("({})", name),
     }
 }
 
@@ -471,6 +572,10 @@ impl Scenario for C06 {
                 panic_class: |m| vmh::panic_signature("C06", m),
             },
         );
+        vmh::set_context("prelude");
+        if let Err(e) = vmh::eval(&mut engine, "(define (make-caller thunk) (lambda () (thunk)))") {
+            report::harness_error(format!("prelude failed: {}", e));
+        }
         let steps = w["steps"].as_array().cloned().unwrap_or_default();
         let mut run = Run { engine: &mut engine, model: Model::default(), known_hits: Vec::new() };
         let long = steps.len() > 50;
@@ -493,7 +598,7 @@ impl Scenario for C06 {
                 vmh::set_context("host");
                 if forms[0][0] == "hostdef" {
                     run.engine.register_value(&name, SteelVal::IntV(v as isize));
-                    run.model.bindings.push(Binding { val: B::Int(v), def_eval: eval, assigned_later: false, const_at_def: false });
+                    run.model.bindings.push(Binding { val: B::Int(v), def_eval: eval, assigned_later: false, const_at_def: false, access: 0 });
                     let id = run.model.bindings.len() - 1;
                     run.model.current.insert(name, id);
                 } else {
@@ -548,7 +653,7 @@ impl Scenario for C06 {
             let saved_model = run.model.clone();
             for (i, f) in forms.iter().enumerate() {
                 if f[0] == "def" || f[0] == "deffn" {
-                    run.model.bindings.push(Binding { val: B::Unbound, def_eval: eval, assigned_later: false, const_at_def: false });
+                    run.model.bindings.push(Binding { val: B::Unbound, def_eval: eval, assigned_later: false, const_at_def: false, access: 0 });
                     let id = run.model.bindings.len() - 1;
                     new_ids.insert(i, id);
                     if f[0] == "def" {
@@ -581,6 +686,17 @@ impl Scenario for C06 {
                     for r in f[3].as_array().unwrap().iter().chain(f[4].as_array().unwrap().iter()) {
                         if !n.contains_key(r.as_str().unwrap()) {
                             unresolved = true;
+                        }
+                    }
+                }
+                if f[0] == "callset" && !names_per_form[i].contains_key(f[1].as_str().unwrap()) {
+                    unresolved = true;
+                }
+                if f[0] == "callset" {
+                    // calling something that is not a setter is still a valid call
+                    if let Some(b) = names_per_form[i].get(f[1].as_str().unwrap()) {
+                        if !new_ids.values().any(|x| x == b) && run.model.bindings[*b].access != 4 {
+                            unresolved = false || unresolved;
                         }
                     }
                 }
